@@ -317,7 +317,7 @@ def r8_serde_table(rep, facts):
         rows = {}
         for name, (item, want_hook, want_arg) in cases.items():
             it = RecInterp(Evaluator(facts), hooks, stubs={'span': ('opaque',)})
-            it.val(b['body'], {pn[0]: ('struct', 'ValueDeserializer', {'input': item, 'validate_struct_keys': False}), pn[1]: ('opaque',), '@assign': {}})
+            it.run_body(b, {pn[0]: ('struct', 'ValueDeserializer', {'input': item, 'validate_struct_keys': False}), pn[1]: ('opaque',), '@assign': {}})
             rows[name] = [(nm, (a[0] if not isinstance(a[0], tuple) else last_seg(a[0][1]) if len(a[0]) > 1 and isinstance(a[0][1], str) else a[0]) if a else None) for nm, a in it.calls]
         for name, (item, want_hook, want_arg) in cases.items():
             got = rows[name]
